@@ -67,3 +67,10 @@ Theorem c03_order_after_delete : forall s ids a,
   filter (fun p => negb (id_in s (snd p) ids)) (links (node_at s a)).
 Proof. exact links_delete_all. Qed.
 Print Assumptions c03_order_after_delete.
+
+(* non-vacuity (Proofs/NonVacuous.v; concrete reachable states, by vm_compute) *)
+From NixV Require Proofs.NonVacuous.
+(* a reachable state (block with array, group, tag) in which every hypothesis of c03_dup_refused holds and the duplicate create is refused *)
+Example c03_hypotheses_met := NonVacuous.nv_dup_refused.
+Check c03_hypotheses_met.
+Print Assumptions c03_hypotheses_met.
